@@ -749,8 +749,9 @@ def mini_metrics_yaml(loop, isect, style, ro, lead="A", levels=None, names=("A",
     return y
 
 
-def cascade_metrics_spec(muls, name):
-    """three chained element-wise Einsums on one accelerator; muls = which multiplier each Einsum is bound to"""
+def cascade_metrics_spec(muls, name, outs=("T", "U", "Z"), seq=None):
+    """three chained element-wise Einsums on one accelerator; muls = which multiplier each Einsum is bound to;
+    outs = names of the three outputs (program order); seq = Einsums (by position) that also bind the sequencer"""
     ranks = ["M", "N"]
 
     def fmt(t):
@@ -758,28 +759,33 @@ def cascade_metrics_spec(muls, name):
         for r in ranks:
             y += "      %s:\n        format: C\n        cbits: 32\n        pbits: 64\n" % r
         return y
-    tensors = ["A", "B", "C", "D", "T", "U", "Z"]
+    o0, o1, o2 = outs
+    tensors = ["A", "B", "C", "D", o0, o1, o2]
     y = "format:\n" + "".join(fmt(t) for t in tensors)
     y += ("architecture:\n  Acc:\n  - name: System\n    attributes:\n      clock_frequency: 101\n    local:\n"
           "    - name: Mem\n      class: DRAM\n      attributes:\n        bandwidth: 211\n    subtree:\n"
           "    - name: PE[0..2]\n      local:\n")
     for i in range(3):
         y += "      - name: Mul%d\n        class: compute\n        attributes:\n          type: mul\n" % i
+    if seq is not None:
+        y += "      - name: Seq\n        class: Sequencer\n        attributes:\n          num_ranks: 2\n"
     y += "bindings:\n"
-    ins = {"T": ["A", "B"], "U": ["T", "C"], "Z": ["U", "D"]}
-    for e, mu in zip(("T", "U", "Z"), muls):
+    ins = {o0: ["A", "B"], o1: [o0, "C"], o2: [o1, "D"]}
+    for pos, (e, mu) in enumerate(zip((o0, o1, o2), muls)):
         y += "  %s:\n  - config: Acc\n    prefix: tmp/%s\n  - component: Mem\n    bindings:\n" % (e, e)
         for t in ins[e] + [e]:
             for r in ranks:
                 for ty in ("coord", "payload"):
                     y += "    - tensor: %s\n      rank: %s\n      type: %s\n      format: default\n" % (t, r, ty)
         y += "  - component: Mul%d\n    bindings:\n    - op: mul\n" % mu
+        if seq is not None and pos in seq:
+            y += "  - component: Seq\n    bindings:\n    - rank: M\n    - rank: N\n"
     from . import spec as S
     secs = S.split_sections(y)
     decl = {t: ["M", "N"] for t in tensors}
-    exprs = ["T[m, n] = A[m, n] * B[m, n]", "U[m, n] = T[m, n] * C[m, n]", "Z[m, n] = U[m, n] * D[m, n]"]
-    lo = {e: ["M", "N"] for e in ("T", "U", "Z")}
-    st = {e: {"space": [], "time": ["M", "N"]} for e in ("T", "U", "Z")}
+    exprs = ["%s[m, n] = A[m, n] * B[m, n]" % o0, "%s[m, n] = %s[m, n] * C[m, n]" % (o1, o0), "%s[m, n] = %s[m, n] * D[m, n]" % (o2, o1)]
+    lo = {e: ["M", "N"] for e in (o0, o1, o2)}
+    st = {e: {"space": [], "time": ["M", "N"]} for e in (o0, o1, o2)}
     return {"name": name, "decl": decl, "exprs": exprs, "mapping": {"loop-order": lo, "spacetime": st},
             "extents": {"M": 2, "N": 2}, "sizes": {}, "arch": secs["architecture"], "bindings": secs["bindings"], "format": secs["format"],
             "tags": {"family": "metrics", "template": "cascade3", "leader_first": True, "legal": True}}
@@ -917,6 +923,12 @@ def f_metrics(tier="quick", seed=0):
     # three chained Einsums: one block sharing components / three blocks (same multiplier) / two blocks
     for muls in ((0, 1, 2), (0, 0, 0), (0, 1, 0), (0, 0, 1)):
         specs.append(cascade_metrics_spec(muls, "metrics/cascade3/mul=%s" % "".join(map(str, muls))))
+    # output names that are not in alphabetical order; a sequencer shared by some of the Einsums
+    specs.append(cascade_metrics_spec((0, 1, 2), "metrics/cascade3/names=PGE/mul=012", outs=("P", "G", "E")))
+    specs.append(cascade_metrics_spec((0, 1, 0), "metrics/cascade3/names=T8T9T10/mul=010", outs=("T8", "T9", "T10")))
+    specs.append(cascade_metrics_spec((0, 1, 2), "metrics/cascade3/seq=01", seq=(0, 1)))
+    specs.append(cascade_metrics_spec((0, 1, 2), "metrics/cascade3/seq=02", seq=(0, 2)))
+    specs.append(cascade_metrics_spec((0, 1, 2), "metrics/cascade3/seq=12/names=ZYX", outs=("Z", "Y", "X"), seq=(1, 2)))
     # a single-instance level next to a multi-instance level, in both orders
     for isect in ("two-finger", "leader-follower"):
         for order in ("before", "after"):
